@@ -132,7 +132,73 @@ def blocks(tier):
     out.append(("one", {}))
     out += [("collapse", {"cols": c}) for c in COLLAPSE_COLS[tier]]
     out.append(("indx-words", {}))
+    out.append(("dense-after-change", {}))
     return out
+
+
+# The first caller named in the statement, over the LIFE of an index: the dtype of the dense output must fit (and be the narrowest for) what the
+# index holds NOW, after entry-wise changes that bring in or take away a wide or negative value.
+WIDE_VALUES = [1, 200, 255, 256, 300, 65535, 65536, 70000, -1, -129, -40000]
+
+
+def check_dense_after_change(acc):
+    from catii.iindexes import iindex
+
+    def expect_dtype(vals):
+        return oracle(min(list(vals) + [0]), max(list(vals) + [0]))
+
+    def observe(idx, dense, case, step):
+        try:
+            out = idx.to_array()
+        except Exception as e:  # noqa
+            acc.violation("to_array:raised-after-change", dict(case, step=step), repr(e))
+            return False
+        if out.tolist() != dense:
+            acc.violation("to_array:values-after-change", dict(case, step=step), "got %r expected %r" % (out.tolist(), dense))
+            return False
+        want = expect_dtype(dense + [idx.common])
+        if numpy.dtype(out.dtype) != want:
+            kind = "too narrow / wrong signedness" if not (numpy.iinfo(out.dtype).min <= min(dense + [idx.common]) and max(dense + [idx.common]) <= numpy.iinfo(out.dtype).max) else "wider than needed"
+            acc.violation("to_array:dtype-after-change", dict(case, step=step), "dense output dtype %s for values %r (common %r): %s, %s expected" % (out.dtype, sorted(set(dense)), idx.common, kind, want))
+            return False
+        return True
+
+    for v in WIDE_VALUES:
+        for how in ("union_update", "setitem", "set_if", "update"):
+            case = {"dense_after_change": True, "value": v, "how": how}
+            dense = [0, 1, 0, 2, 0]
+            idx = iindex({(1,): numpy.array([1], dtype=numpy.uint32), (2,): numpy.array([3], dtype=numpy.uint32)}, 0, (5,))
+            if not observe(idx, dense, case, "built"):
+                continue
+            rows = numpy.array([0, 4], dtype=numpy.uint32)
+            try:
+                if how == "union_update":
+                    idx.union_update({(v,): rows}) if v != 1 else idx.union_update({(7,): rows})
+                elif how == "setitem":
+                    idx[(v if v != 1 else 7,)] = rows
+                elif how == "set_if":
+                    idx.set_if((v if v != 1 else 7,), rows)
+                else:
+                    idx.update({(v if v != 1 else 7,): rows})
+            except Exception as e:  # noqa
+                acc.violation("to_array:raised-after-change", dict(case, step="bring in"), repr(e))
+                continue
+            vv = v if v != 1 else 7
+            dense2 = [vv, 1, 0, 2, vv]
+            if not observe(idx, dense2, case, "after bringing the value in"):
+                continue
+            try:
+                if how in ("union_update", "update"):
+                    idx.difference_update({(vv,): rows})
+                elif how == "setitem":
+                    del idx[(vv,)]
+                else:
+                    idx.set_if((vv,), None)
+            except Exception as e:  # noqa
+                acc.violation("to_array:raised-after-change", dict(case, step="take away"), repr(e))
+                continue
+            observe(idx, dense, case, "after taking the value away again")
+            acc.case(("dense-after", v, how), nontrivial=True, outcome=("dense-after", str(expect_dtype(dense2))), sample=case)
 
 
 # The third caller named in the statement: the INDX coordinate word must hold the largest coordinate AND the common value, and be the narrowest that does.
@@ -254,6 +320,9 @@ def run_block(family, p, acc):
     if family == "indx-words":
         check_indx_words(acc)
         return
+    if family == "dense-after-change":
+        check_dense_after_change(acc)
+        return
     if family == "two":
         for mx in B[p["i0"]:p["i1"]]:
             for mn in B:
@@ -272,6 +341,12 @@ def replay(case, site=None):
     from ..core import Acc
 
     acc = Acc(ID, [], stop_at_first=False)
+    if case.get("dense_after_change"):
+        check_dense_after_change(acc)
+        hits = [v for v in acc.violations if v["case"].get("value") == case.get("value") and v["case"].get("how") == case.get("how")]
+        for v in hits:
+            print("  %s %s :: %s" % (v["site"], v["case"], v["detail"]))
+        return bool(hits)
     if case.get("indx_words"):
         check_indx_words(acc)
         hits = [v for v in acc.violations if v["case"] == case]
